@@ -53,6 +53,10 @@ Emit == (EmitAll \/ Len(facts) = MaxFacts + (IF Prefix THEN 3 ELSE 0)) => PrintT
 RecsSmall == [k \in Kinds |-> IF k = "gene" THEN {1, 2} ELSE {1}]
 (* different totals per kind, so a wrong total or a kind mix-up changes a value (C03) *)
 RecsIC == [k \in Kinds |-> IF k = "gene" THEN {1, 2, 3} ELSE IF k = "omim" THEN {1, 2} ELSE {1}]
+(* universes with records of ONE kind only (the other two kinds have none) *)
+RecsOnlyGene  == [k \in Kinds |-> IF k = "gene"  THEN {1, 2, 3} ELSE {}]
+RecsOnlyOmim  == [k \in Kinds |-> IF k = "omim"  THEN {1, 2, 3} ELSE {}]
+RecsOnlyOrpha == [k \in Kinds |-> IF k = "orpha" THEN {1, 2, 3} ELSE {}]
 RecsICP == [k \in Kinds |-> IF k = "gene" THEN {1, 2, 9} ELSE IF k = "omim" THEN {1, 9} ELSE {1, 9}]
 
 =============================================================================
